@@ -15,6 +15,7 @@ type fnCtx struct {
 	fn           *ssa.Function
 	storedFields map[*types.Var]bool // struct fields stored to anywhere in fn (outside the initial parameter spill)
 	linCache     map[ssa.Value]Lin
+	repCache     map[ssa.Value]ssa.Value
 	lenCache     map[ssa.Value]Lin
 	phiLow       map[*ssa.Phi]*int64
 	success      []successFact
@@ -96,9 +97,139 @@ func (c *fnCtx) canon(v ssa.Value) (ssa.Value, string) {
 		}
 	}
 	if !ok || len(path) == 0 {
+		if rep := c.repLoad(v); rep != nil {
+			return rep, ""
+		}
 		return v, ""
 	}
 	return root, strings.Join(path, ".")
+}
+
+// repLoad: for a load of a field of a non-escaping local struct that the function also stores
+// (so the field path is not a stable atom), the earliest load of the same field that dominates v
+// with no store to that field of that cell on any path in between reads the same value: it
+// represents v. nil when there is none.
+func (c *fnCtx) repLoad(v ssa.Value) ssa.Value {
+	ld, ok := v.(*ssa.UnOp)
+	if !ok || ld.Op != token.MUL {
+		return nil
+	}
+	fa, ok := ld.X.(*ssa.FieldAddr)
+	if !ok {
+		return nil
+	}
+	cell, ok := fa.X.(*ssa.Alloc)
+	if !ok || cell.Referrers() == nil {
+		return nil
+	}
+	if c.repCache == nil {
+		c.repCache = map[ssa.Value]ssa.Value{}
+	}
+	if r, ok := c.repCache[v]; ok {
+		return r
+	}
+	c.repCache[v] = nil
+	// the cell must not escape: only field addresses (loaded / stored through) and whole loads/stores
+	var loads []*ssa.UnOp
+	var stores []*ssa.Store
+	for _, ref := range *cell.Referrers() {
+		switch x := ref.(type) {
+		case *ssa.FieldAddr:
+			if x.Referrers() == nil {
+				continue
+			}
+			for _, r2 := range *x.Referrers() {
+				switch y := r2.(type) {
+				case *ssa.UnOp:
+					if y.Op == token.MUL && x.Field == fa.Field {
+						loads = append(loads, y)
+					}
+				case *ssa.Store:
+					if y.Addr != ssa.Value(x) {
+						return nil // the field address is stored somewhere: escapes
+					}
+					if x.Field == fa.Field {
+						stores = append(stores, y)
+					}
+				case *ssa.FieldAddr, *ssa.IndexAddr, *ssa.DebugRef:
+				default:
+					return nil // passed to a call etc.
+				}
+			}
+		case *ssa.Store:
+			if x.Addr != ssa.Value(cell) {
+				return nil
+			}
+			stores = append(stores, x) // whole-value store also writes the field
+		case *ssa.UnOp, *ssa.DebugRef:
+		default:
+			return nil
+		}
+	}
+	isStore := map[ssa.Instruction]bool{}
+	for _, s := range stores {
+		isStore[s] = true
+	}
+	// no store reachable from a and reaching b without passing b: bounded search over blocks
+	clean := func(a, b ssa.Instruction) bool {
+		type pos struct {
+			blk *ssa.BasicBlock
+			i   int
+		}
+		idx := func(in ssa.Instruction) int {
+			for i, x := range in.Block().Instrs {
+				if x == in {
+					return i
+				}
+			}
+			return 0
+		}
+		seen := map[*ssa.BasicBlock]bool{}
+		work := []pos{{a.Block(), idx(a) + 1}}
+		for len(work) > 0 {
+			p := work[len(work)-1]
+			work = work[:len(work)-1]
+			if p.i == 0 {
+				if seen[p.blk] {
+					continue
+				}
+				seen[p.blk] = true
+			}
+			stopped := false
+			for i := p.i; i < len(p.blk.Instrs); i++ {
+				in := p.blk.Instrs[i]
+				if in == b {
+					stopped = true
+					break
+				}
+				if isStore[in] {
+					// a store that can still reach b?
+					return false
+				}
+			}
+			if stopped {
+				continue
+			}
+			for _, s := range p.blk.Succs {
+				work = append(work, pos{s, 0})
+			}
+		}
+		return true
+	}
+	var best ssa.Value
+	for _, l := range loads {
+		if l == ld || !dominatesInstr(l, ld) {
+			continue
+		}
+		if !clean(l, ld) {
+			continue
+		}
+		if best == nil || dominatesInstr(l, best.(ssa.Instruction)) {
+			best = l
+		}
+	}
+	c.repCache[v] = best
+	return best
 }
 
 func (c *fnCtx) canonVal(v ssa.Value, d int) (ssa.Value, []string, bool) {
